@@ -179,9 +179,24 @@ def _modifier_chunk(items):
                 want = ['h1,h2,bNR'] + want        # bare variables name their column (C07)
             if err or got != want:
                 sigs.append({'impl': 'py', 'backend': 'csv', 'what': 'header / no-header mode (join table)', 'flag': case['flag'], 'modifier': case['modifier'], 'got': got if not err else err, 'want': want})
+            # column names of BOTH tables bind exactly when the effective mode is "header" (whoever decided it: flag or modifier)
+            for qn, q in enumerate(('select a.h1, b.h2, bNR join J.csv on a.h1 == b.h1', 'select a["h1"], b[\'h2\'], bNR join J.csv on a1 == b["h1"]')):
+                err = None
+                try:
+                    rcsv.query_csv(q + mod, inp, ',', 'quoted', outp, ',', 'quoted', 'utf-8', [], bool(case['flag']))
+                    got = [l for l in open(outp).read().split('\n') if l]
+                except Exception as e:  # noqa
+                    err = type(e).__name__ + ': ' + str(e)[:100]
+                    got = None
+                if case['effective']:
+                    if err or got != want:
+                        sigs.append({'impl': 'py', 'backend': 'csv', 'what': 'named columns of input and join table under the effective header mode', 'flag': case['flag'], 'modifier': case['modifier'],
+                                     'query': qn, 'got': got if not err else err, 'want': want})
+                elif not err:
+                    sigs.append({'impl': 'py', 'backend': 'csv', 'what': 'column names bound although the effective mode has no header', 'flag': case['flag'], 'modifier': case['modifier'], 'query': qn, 'got': got})
         finally:
             shutil.rmtree(d, ignore_errors=True)
-        out.append((k, sigs, 2))
+        out.append((k, sigs, 4))
     return out
 
 
